@@ -21,7 +21,7 @@ func init() { _ = logger.SetLogLevel("*:NONE") }
 
 // ---- generator -----------------------------------------------------------------------------------
 
-var opNames = []string{"Put", "PutInEpoch", "Get", "GetFromEpoch", "Has", "SearchFirst", "Remove", "ClearCache", "ChangeEpoch", "SetEpochForPut", "Restart"}
+var opNames = []string{"Put", "PutInEpoch", "Get", "GetFromEpoch", "Has", "SearchFirst", "Remove", "ClearCache", "ChangeEpoch", "SetEpochForPut", "Restart", "GetBulkFromEpoch"}
 
 func genC30(r *simkit.Rand, tier string) *simkit.Plan {
 	p := &simkit.Plan{Knobs: map[string]int64{}}
@@ -102,6 +102,7 @@ func genC30(r *simkit.Rand, tier string) *simkit.Plan {
 		r.Range(1, 5),  // ChangeEpoch
 		r.Range(0, 2),  // SetEpochForPut
 		0,              // Restart
+		r.Range(0, 2),  // GetBulkFromEpoch
 	}
 	if restartOK {
 		w[10] = r.Range(1, 2)
@@ -114,6 +115,8 @@ func genC30(r *simkit.Rand, tier string) *simkit.Plan {
 	// some runs aim at the removal clause under a stuck-shard extension: a key is written into the oldest active epoch,
 	// the next epoch change keeps (or re-opens) that epoch beyond the configured window, then Remove / ClearCache / read
 	extBurst := r.Chance(0.35)
+	// other runs interleave epoch-specific reads of retained, no longer active epochs between a Remove and plain reads
+	retBurst := r.Chance(0.35)
 
 	key := func() string { return fmt.Sprintf("k%d", r.Intn(nKeys)) }
 	relEpoch := func() int64 { // distance below the current epoch; negative = future epoch
@@ -143,7 +146,7 @@ func genC30(r *simkit.Rand, tier string) *simkit.Plan {
 			st.I = []int64{relEpoch()}
 		case "Get", "Has", "SearchFirst", "Remove":
 			st.S = []string{key()}
-		case "GetFromEpoch":
+		case "GetFromEpoch", "GetBulkFromEpoch":
 			st.S = []string{key()}
 			st.I = []int64{relEpoch()}
 		case "ChangeEpoch":
@@ -166,7 +169,7 @@ func genC30(r *simkit.Rand, tier string) *simkit.Plan {
 			switch op {
 			case "Put", "PutInEpoch":
 				kind, st.T = "put_error", -1
-			case "Get", "GetFromEpoch", "SearchFirst":
+			case "Get", "GetFromEpoch", "SearchFirst", "GetBulkFromEpoch":
 				kind, st.T = "get_error", r.Intn(nap+1)
 			case "Has":
 				kind, st.T = "has_error", r.Intn(nap+1)
@@ -182,6 +185,18 @@ func genC30(r *simkit.Rand, tier string) *simkit.Plan {
 			} else {
 				st.T = 0
 			}
+		}
+		if retBurst && r.Chance(0.07) {
+			k := key()
+			p.Steps = append(p.Steps, simkit.Step{Op: "Remove", S: []string{k}})
+			for j, m := 0, r.Range(1, 2); j < m; j++ {
+				d := int64(r.Range(nap, keep))
+				if r.Chance(0.15) {
+					d = int64(r.Range(0, keep+1))
+				}
+				p.Steps = append(p.Steps, simkit.Step{Op: []string{"GetFromEpoch", "GetFromEpoch", "GetBulkFromEpoch"}[r.Intn(3)], S: []string{k}, I: []int64{d}})
+			}
+			p.Steps = append(p.Steps, simkit.Step{Op: []string{"Get", "Has", "SearchFirst"}[r.Intn(3)], S: []string{k}})
 		}
 		burstKey := ""
 		if op == "ChangeEpoch" && extBurst && r.Chance(0.6) {
@@ -349,6 +364,9 @@ type storer interface {
 type removedState struct {
 	step   int
 	active map[uint32]bool // the epochs that were active (extension epochs included) when Remove returned nil
+	// reachable: since the Remove, some epoch that was not active then but still holds the key has been in the active
+	// list (only maintained where the driver mirrors the active list exactly)
+	reachable bool
 }
 
 func (rs *removedState) list() []uint32 {
@@ -646,6 +664,42 @@ func (r *run) exemptSource(key string, rs *removedState) bool {
 	return false
 }
 
+// refreshRemoved updates the reachable flag of every removed key against the current (mirrored) active list. The
+// disks cannot change for a removed key (any put or Remove of it starts a new state), so it is enough to call this
+// whenever the active list changes and before a read is judged.
+func (r *run) refreshRemoved() {
+	if !r.mirrorOK || len(r.removed) == 0 {
+		return
+	}
+	for key, rs := range r.removed {
+		if rs.reachable {
+			continue
+		}
+		for _, e := range r.mActive {
+			if rs.active[e] {
+				continue
+			}
+			if d := r.diskOfEpoch(e); d != nil {
+				if _, ok := d.RawGet([]byte(key)); ok {
+					rs.reachable = true
+					break
+				}
+			}
+		}
+	}
+}
+
+// legitSource says whether a plain read may legitimately have returned a removed key: where the active list is mirrored
+// exactly, only if an epoch that holds the key and was not active at the Remove has been active since (plain reads and
+// the cache only ever see active epochs); otherwise whenever any epoch not active at the Remove still holds the key.
+func (r *run) legitSource(key string, rs *removedState) bool {
+	if r.mirrorOK {
+		r.refreshRemoved()
+		return rs.reachable
+	}
+	return r.exemptSource(key, rs)
+}
+
 func sortedKeys(m map[string]*file) []string {
 	ks := make([]string, 0, len(m))
 	for k := range m {
@@ -659,7 +713,7 @@ func sortedKeys(m map[string]*file) []string {
 func (r *run) checkRead(op, key string, e uint32, val []byte, err error, faultFired bool) {
 	c := r.c
 	ok := err == nil
-	plain := op != "GetFromEpoch"
+	plain := op != "GetFromEpoch" && op != "GetBulkFromEpoch"
 	if ok && op != "Has" && !r.vals[key][string(val)] {
 		c.Violate("C30", "phantom-value", op, "%s(%s) returned %q which was never written for that key", op, key, val)
 		return
@@ -669,10 +723,10 @@ func (r *run) checkRead(op, key string, e uint32, val []byte, err error, faultFi
 		if applies {
 			r.removeChecks++
 			if ok {
-				if r.exemptSource(key, rs) {
+				if r.legitSource(key, rs) {
 					c.Probe("read_after_remove_from_epoch_not_active_at_remove")
 				} else {
-					c.Violate("C30", "readable-after-remove", op, "%s(%s) returned %q after Remove(%s) succeeded at step %d (epochs %v were active then, extension epochs included; current epoch %d); no other epoch holds the key",
+					c.Violate("C30", "readable-after-remove", op, "%s(%s) returned %q after Remove(%s) succeeded at step %d (epochs %v were active then, extension epochs included; current epoch %d); no epoch that holds the key has been active since",
 						op, key, val, key, rs.step, rs.list(), r.cur())
 				}
 			}
@@ -713,7 +767,7 @@ func (r *run) checkRead(op, key string, e uint32, val []byte, err error, faultFi
 	if plain {
 		c.Violate("C30", "unreadable-while-active", op, "%s(%s) failed (%v) although a value was put in epoch %d while it was open and epochs %d..%d are active", op, key, err, newest, r.minLo(), r.cur())
 	} else {
-		c.Violate("C30", "unreadable-while-retained", op, "GetFromEpoch(%s, %d) failed (%v) although a value was put in epoch %d while it was open and epochs %d..%d are retained", key, e, err, e, r.retLo(), r.cur())
+		c.Violate("C30", "unreadable-while-retained", op, op+"(%s, %d) failed (%v) although a value was put in epoch %d while it was open and epochs %d..%d are retained", key, e, err, e, r.retLo(), r.cur())
 	}
 }
 
@@ -844,8 +898,30 @@ func execC30(c *simkit.Ctx) bool {
 			e := r.absEpoch(st.Int(0, 0))
 			v, err := r.st.GetFromEpoch([]byte(key), e)
 			fired := disarm()
+			if !r.isOpen(e) && err == nil && r.removed[key] != nil {
+				c.Probe("epoch_read_of_removed_key_from_inactive_epoch")
+			}
 			r.checkRead("GetFromEpoch", key, e, v, err, fired)
 			c.Eventf("%d GetFromEpoch %s %d -> %s", i, key, e, show(v, err))
+		case "GetBulkFromEpoch":
+			if key == "" {
+				break
+			}
+			e := r.absEpoch(st.Int(0, 0))
+			m, err := r.st.GetBulkFromEpoch([][]byte{[]byte(key)}, e)
+			fired := disarm()
+			var v []byte
+			if err == nil {
+				var found bool
+				if v, found = m[key]; !found {
+					err = storage.ErrKeyNotFound
+				}
+			}
+			if !r.isOpen(e) && err == nil && r.removed[key] != nil {
+				c.Probe("epoch_read_of_removed_key_from_inactive_epoch")
+			}
+			r.checkRead("GetBulkFromEpoch", key, e, v, err, fired)
+			c.Eventf("%d GetBulkFromEpoch %s %d -> %s", i, key, e, show(v, err))
 		case "Remove":
 			if key == "" {
 				break
@@ -936,6 +1012,7 @@ func execC30(c *simkit.Ctx) bool {
 			if r.mirrorOK && len(r.mActive) > int(r.nap) {
 				c.Probe("active_list_longer_than_configured")
 			}
+			r.refreshRemoved()
 			if r.closes > closes0 {
 				c.Probe("persister_closed_on_epoch_change")
 			}
@@ -958,6 +1035,7 @@ func execC30(c *simkit.Ctx) bool {
 				c.HarnessErr("restart at epoch %d: %v", s, err)
 				return false
 			}
+			r.refreshRemoved()
 			c.Fault("close_reopen")
 			c.Eventf("%d Restart start=%d", i, s)
 		default:
